@@ -325,10 +325,16 @@ pub fn execute(case: &StreamCase, st: &mut Stats) -> Exec {
             v.push(Violation::new("C08.d", "too-many-polls", format!("task {}: {} polls for {} Pending decisions and {} calls", t, ex.tasks[t].polls, pdec, results.len())));
             continue;
         }
-        // a) message sequence before the terminal (with a "no more message" at every transient end
-        // of file the walk passes)
-        let last_end = pieces.last().map_or(0, |p| p.1);
-        let n_main = pieces.len() + stops.iter().filter(|s| **s <= last_end).count();
+        // a) message sequence before the terminal. With transient ends of file the comparison ends
+        // at the first "no more message": C08 speaks of the messages "followed by the ... terminal
+        // outcome" (singular) — a reader that stays at its end of stream once it has reported it (a
+        // fused reader) is as good as one that asks its source again; what the resumed calls must
+        // still not do is panic (C08.c, above) or lose a wake-up (C08.d).
+        let first_stop = stops.iter().copied().min();
+        let n_main = match first_stop {
+            Some(s0) => pieces.iter().filter(|p| p.1 <= s0).count(),
+            None => pieces.len(),
+        };
         let mut bad = false;
         for i in 0..n_main {
             let a = results.get(i);
@@ -349,6 +355,17 @@ pub fn execute(case: &StreamCase, st: &mut Stats) -> Exec {
         // b) terminal outcome of the same kind
         let a = results.get(n_main);
         let b = refr.get(n_main);
+        if first_stop.is_some() {
+            // the terminal outcome at the first transient end of file: both "no more message"
+            if a != b {
+                v.push(Violation::new(
+                    "C08.b",
+                    "terminal-differs",
+                    format!("task {}: at the (first, transient) end of the source: async reader {} vs blocking reader {}", t, a.map_or("<nothing>".into(), |r| r.short()), b.map_or("<nothing>".into(), |r| r.short())),
+                ));
+            }
+            continue;
+        }
         if matches!(b, Some(r) if r.is_panic()) {
             // the blocking reader itself panics here: that is C07's finding, there is nothing to compare with
         } else if failed {
